@@ -294,8 +294,10 @@ Example c10_nonvacuous_stream_failure :
   | (o, t) => (o_kind o, o_code o, o_cb o, o_skind o, o_scode o)
   end = (1, 8, 15, 1, 8).
 Proof.
-  vm_compute. repeat split; try reflexivity.
-  - repeat constructor. discriminate.
+  split; [vm_compute; reflexivity|]. split; [vm_compute; reflexivity|]. split.
+  - unfold short_lines, ex_lines_21. split; [|apply Z.ltb_lt; vm_compute; reflexivity].
+    repeat (apply Forall_cons; [apply Z.leb_le; vm_compute; reflexivity|]). apply Forall_nil.
+  - vm_compute. reflexivity.
 Qed.
 
 (* a rejected line among the delivered ones wins over the failure of the body: `FOO` is not a record *)
